@@ -9,7 +9,7 @@ CALLS = ['compile', 'compile_nv', 'update_var', 'clear_frontend_caches', 'call_e
 
 def run(ctx):
     tier = ctx.tier
-    ctx.rule = ('TLC explores every history of <= 3 (quick) / 4 (thorough) public calls over a fixed universe that contains '
+    ctx.rule = ('TLC explores every history of <= 2 public calls (thorough: all flag combinations) plus sampled histories of depth 4 (6) over a fixed universe that contains '
                 'every collision C13 names (two operators with one name, one NodeTemplate object used by two circuits, two '
                 'operators of equal structure, compiles with/without clear and vectorize); one behaviour per distinct abstract '
                 'state whose last call returns a function; each is replayed in one fresh process and the linear field of the '
@@ -21,7 +21,8 @@ def run(ctx):
     ctx.assumptions += ['in_place=False in every compile (in_place=True consumes the template: documented)',
                         'default backend; the Fortran extension-module staleness (D24) is covered by a pinned reproducer only',
                         'the observable is the linear vector field probed on unit vectors plus the initial state']
-    behs = ac.dedupe(ac.tlc_behaviours(ctx, 'C13', CALLS, 2 if tier == 'quick' else 3,
+    behs = ac.dedupe(ac.tlc_behaviours(ctx, 'C13', CALLS, 2,      # thorough: no FewFlags constraint, deeper sampling (depth-3 exhaustive explodes with this universe)
+                                      
                                        simulate=(250, 4) if tier == 'quick' else (3000, 6),
                                        extra=['FewFlags'] if tier == 'quick' else []))
     cy = ac.tlc_behaviours_cy(ctx, 6, plain=True)
